@@ -334,7 +334,7 @@ pub fn c14(ctx: &mut Ctx) {
     if ctx.tier == Tier::Thorough {
         c14_small_scope(ctx, 4, 3);
     }
-    let cases = ctx.tier.pick(4000, 100_000);
+    let cases = ctx.tier.pick(40_000, 400_000);
     let (lo, hi) = ctx.tier.pick((10, 60), (10, 90));
     run_campaign(
         ctx,
@@ -484,7 +484,7 @@ fn label_conds(ci: &mut CaseInfo, conds: &[CCond]) {
 
 pub fn c15(ctx: &mut Ctx) {
     ctx.rule = "random property-bearing multigraphs (values from a pool mixing i64 5, u64 5, f64 5.0, \"5\", bytes and vectors under the same keys) x random condition trees (depth <=3, 1-4 conditions per level, every condition kind, every modifier, both logic operators, every comparison operator with operands from the same mixed pool, ids by id and alias) x {bfs,dfs} x {from,to} and elements search (without distance); the exact result sequence is compared with the reference evaluator + reference traversal. Non-trivial: the tree has a modifier, a nested where, or a key-value comparison whose operand type differs from a stored value's type under that key, AND the result differs from the condition-free search. Distinct = hash of (graph history, search).".into();
-    let cases = ctx.tier.pick(6000, 150_000);
+    let cases = ctx.tier.pick(50_000, 500_000);
     let (lo, hi) = ctx.tier.pick((10, 50), (10, 80));
     let cp = CondProfile {
         distance: true,
@@ -650,7 +650,7 @@ fn c16_case(c: &SearchCase) -> CaseResult {
 
 pub fn c16(ctx: &mut Ctx) {
     ctx.rule = "random searches (bfs/dfs from/to, path, elements; conditions at low weight) x offset in 0..n+3 x limit in 0..n+3 (n = unsliced result length) x 0-3 order_by keys (asc/desc) over keys with mixed presence and mixed value types. Oracle (metamorphic, panics caught): R(O,L) equals positions O..O+L (clipped, L=0 unlimited) of the same query with O=L=0; the ordered unsliced result equals a reference stable sort (missing keys last, DbValue order) of the unordered result; never Err, never a panic. Non-trivial: O>0 or L>0, and (O+L>n or order_by non-empty). Distinct = hash of (graph history, resolved search).".into();
-    let cases = ctx.tier.pick(6000, 150_000);
+    let cases = ctx.tier.pick(50_000, 500_000);
     let (lo, hi) = ctx.tier.pick((10, 50), (10, 80));
     replay_saved::<SearchCase, _>(ctx, "c16-search", c16_case);
     run_campaign(
@@ -1147,7 +1147,7 @@ pub fn c17(ctx: &mut Ctx) {
     replay_saved::<SearchCase, _>(ctx, "c17-search", c17_case);
     let (n, m) = ctx.tier.pick((3, 3), (3, 4));
     c17_small_scope(ctx, n, m);
-    let cases = ctx.tier.pick(4000, 100_000);
+    let cases = ctx.tier.pick(30_000, 300_000);
     let (lo, hi) = ctx.tier.pick((10, 50), (10, 80));
     run_campaign(
         ctx,
@@ -1164,7 +1164,7 @@ pub fn c17(ctx: &mut Ctx) {
         c17_case,
     );
     // dense marked graphs: many alternative routes of different lengths and costs
-    let cases = ctx.tier.pick(12_000, 300_000);
+    let cases = ctx.tier.pick(80_000, 800_000);
     run_campaign(
         ctx,
         CampaignCfg {
@@ -1264,7 +1264,7 @@ fn c18_case(c: &SearchCase) -> CaseResult {
 
 pub fn c18(ctx: &mut Ctx) {
     ctx.rule = "histories with heavy removal and id reuse in random order, then search().elements() without and with conditions (no distance), limits and offsets in 0..n+2; the result must equal the model's live elements sorted by |id| (a slot holds either a node or an edge), filtered by the reference evaluator and sliced. Non-trivial: >=3 slots were freed and >=1 was reused by the other element kind. Distinct = hash of (history, resolved search).".into();
-    let cases = ctx.tier.pick(3000, 60_000);
+    let cases = ctx.tier.pick(30_000, 300_000);
     let (lo, hi) = ctx.tier.pick((20, 70), (20, 120));
     let mut p = graph_profile();
     p.w_remove = 16;
